@@ -226,6 +226,13 @@ func c11Rules() []c11Rule {
 			Different: kvm("depends_on", kvm("db", kvm("condition", "service_healthy", "required", false))), Check: "depends-on-db-optional"},
 		{Name: "env-file-required", Implicit: kvm("env_file", []any{kvm("path", "./a.env")}), Explicit: kvm("env_file", []any{kvm("path", "./a.env", "required", true)}),
 			Different: kvm("env_file", []any{kvm("path", "./missing.env", "required", false)}), Check: "env-file-optional"},
+		// the flag spelled as a string (the schema admits one, e.g. out of a variable): it is still the flag
+		{Name: "env-file-required-string", Implicit: kvm("env_file", []any{kvm("path", "./a.env")}), Explicit: kvm("env_file", []any{kvm("path", "./a.env", "required", "true")}),
+			Different: kvm("env_file", []any{kvm("path", "./missing.env", "required", "false")}), Check: "env-file-optional"},
+		{Name: "env-file-required-yes-no", Implicit: kvm("env_file", []any{kvm("path", "./a.env")}), Explicit: kvm("env_file", []any{kvm("path", "./a.env", "required", "yes")}),
+			Different: kvm("env_file", []any{kvm("path", "./missing.env", "required", "no")}), Check: "env-file-optional"},
+		{Name: "env-file-required-on-off", Implicit: kvm("env_file", []any{kvm("path", "./a.env")}), Explicit: kvm("env_file", []any{kvm("path", "./a.env", "required", "On")}),
+			Different: kvm("env_file", []any{kvm("path", "./missing.env", "required", "OFF")}), Check: "env-file-optional"},
 		{Name: "device-count", Implicit: kvm("deploy", kvm("resources", kvm("reservations", kvm("devices", []any{kvm("capabilities", []any{"gpu"})})))),
 			Explicit:  kvm("deploy", kvm("resources", kvm("reservations", kvm("devices", []any{kvm("capabilities", []any{"gpu"}, "count", "all")})))),
 			Different: kvm("deploy", kvm("resources", kvm("reservations", kvm("devices", []any{kvm("capabilities", []any{"gpu"}, "count", 2)})))), Check: "device-count-2"},
